@@ -212,7 +212,7 @@ type childResult struct {
 }
 
 // runChild re-executes this binary with a sub-scenario, waits (generous timeout), and re-emits the child's rows.
-func runChild(c *ctx, timeout time.Duration, words ...string) childResult {
+func runChildE(c *ctx, timeout time.Duration, words ...string) childResult {
 	childOut := filepath.Join(scratchDir(), fmt.Sprintf("child-%d-%d.trace", os.Getpid(), atomic.AddInt64(&rigSeq, 1)))
 	args := append([]string{"-tier", c.tier, "-seed", fmt.Sprint(c.seed), "-out", childOut}, words...)
 	cmd := exec.Command(os.Args[0], args...)
